@@ -168,7 +168,7 @@ func TestC15(t *testing.T) {
 	defer r.Close(t)
 	r.Rule("owners: scheme x host(+port) x 0..3 path segments from an alphabet with unreserved characters, percent-escapes, ~ and collection names, optional trailing slashes, no query/fragment, x all 8 collection names: " +
 		"Split(IRIf(o,c)) returns c and an owner equivalent (reference normaliser, scheme compared) to o; c.OfActor(c.IRI(o)) ≡ o; ValidCollectionIRI(IRIf(o,c)); !ValidCollectionIRI(o) when o's cleaned last " +
-		"segment is no collection name. items: objects and actors x 8 names x {no explicit property, explicit IRI, explicit embedded collection}: explicit property wins, else ≡ IRIf(id,c). " +
+		"segment is no collection name. items: an actor, an object and a value of each of the other 11 object types (collections holding two members) as the owner x 8 names x {no explicit property, explicit IRI, explicit embedded collection}: explicit property wins, else ≡ IRIf(id,c). " +
 		"non-trivial = owner has a trailing slash, port, escape or collection-named segment, or the item has an explicit property; distinct by (owner, name)")
 
 	segs := []string{"users", "~jdoe", "a.b", "%20x", "%41", "a%2Fb", "inbox", "Followers", "replies", "x_y-z", "ü"}
